@@ -300,3 +300,100 @@ class ConcatRemoveHole(Contract):
 
 
 CONTRACTS = [RemoveEntityGuard, WorkspaceRemoveChildren, RemoveRecursively, RemoveDataFromGroups, ConcatRemoveChildren, ConcatRemoveHole]
+
+
+class ConcatAttributesPending(Contract):
+    """Attribute edits of concatenated entities live in the group's attribute list, which reaches
+    the file when the workspace closes -- provided the edit raises the workspace's pending flag
+    (`repack`); Workspace.close flushes every drillhole group when the flag is up (CloseFlushes)."""
+    target = "geoh5py/shared/concatenation/concatenator.py::Concatenator.update_concatenated_attributes"
+    props = ("C03", "C04", "C11")
+    lenient = True
+
+    def cases(self):
+        return ["hole", "data"]
+
+    def setup(self, ctx):
+        from contracts.concat import concatenator_class
+        from geoh5py.shared.concatenation.data import ConcatenatedData
+        from geoh5py.shared.concatenation.drillhole import ConcatenatedDrillhole
+
+        me = Opaque("self", cls=concatenator_class())
+        ent = Opaque("entity", cls=ConcatenatedDrillhole if ctx.case == "hole" else ConcatenatedData)
+        ent.attrs["attribute_map"] = PDict({"Name": "name", "Planning": "planning"})
+        ent.attrs["name"] = "renamed"
+        ent.attrs["planning"] = "Ongoing"
+        ent.attrs["uid"] = Opaque("uid")
+        et = Opaque("entity_type")
+        et.attrs["uid"] = Opaque("type-uid")
+        ent.attrs["entity_type"] = et
+        record = PDict({"Name": "old", "Planning": "Default"})
+        gca = Opaque("get_concatenated_attributes")
+        gca.maybe_method = lambda I, a, kw: record
+        me.attrs["get_concatenated_attributes"] = gca
+        ws = Opaque("workspace")
+        ws.attrs["repack"] = False
+        me.attrs["workspace"] = ws
+        ctx.env.update(ws=ws, record=record)
+        return [me, ent], {}
+
+    def post(self, ctx, result):
+        e = ctx.env
+        ctx.oblige("the-new-values-are-in-the-attribute-record", e["record"].items.get("Name") == "renamed" and e["record"].items.get("Planning") == "Ongoing")
+        ctx.oblige("the-edit-is-marked-pending-so-that-close-writes-it", e["ws"].attrs.get("repack") is True,
+                   note="the attribute record changed in memory but nothing tells close() to write it")
+
+
+CONTRACTS = CONTRACTS + [ConcatAttributesPending]
+
+
+class ObjectRemoveChildren(Contract):
+    """ObjectBase.remove_children: every listed entity the object holds leaves its child list and,
+    when it is data, every one of the object's property groups -- also when the entity's own parent
+    field already points elsewhere (the re-parenting setter stores the new parent first); entities
+    the object does not hold are skipped."""
+    target = "geoh5py/objects/object_base.py::ObjectBase.remove_children"
+    props = ("C02", "C05")
+    lenient = True
+
+    def cases(self):
+        return ["data-still-pointing-here", "data-already-pointing-to-its-new-parent", "not-held"]
+
+    def setup(self, ctx):
+        from geoh5py.data import FloatData
+        from geoh5py.objects import Points
+
+        me = Opaque("self", cls=Points)
+        other_parent = Opaque("new-parent")
+        child = Opaque("child", cls=FloatData)
+        sibling = Opaque("sibling", cls=FloatData)
+        for o in (me, other_parent, child, sibling):
+            o.distinct = True
+        child.attrs["parent"] = other_parent if ctx.case != "data-still-pointing-here" else me
+        kept = PList([sibling] if ctx.case == "not-held" else [sibling, child])
+        me.attrs["_children"] = kept
+        me.attrs["_property_groups"] = PList([Opaque("pg")])
+        scrub = Opaque("remove_data_from_groups")
+        scrub.maybe_method = lambda I, a, kw: I.event("scrub", data=a[0])
+        me.attrs["remove_data_from_groups"] = scrub
+        ws = Opaque("workspace")
+        wrc = Opaque("workspace.remove_children")
+        wrc.maybe_method = lambda I, a, kw: I.event("unlink", parent=a[0], children=a[1])
+        ws.attrs["remove_children"] = wrc
+        me.attrs["workspace"] = ws
+        ctx.env.update(me=me, child=child, sibling=sibling, kept=kept)
+        return [me, PList([child])], {}
+
+    def post(self, ctx, result):
+        e = ctx.env
+        scrubbed = [p["data"] for k, p in ctx.path.events if k == "scrub"]
+        if ctx.case == "not-held":
+            ctx.oblige("an-entity-the-object-does-not-hold-is-skipped", not scrubbed and e["kept"].items == [e["sibling"]])
+            return
+        ctx.oblige("the-child-leaves-the-child-list", e["child"] not in e["kept"].items and e["sibling"] in e["kept"].items,
+                   note="the object still lists a child that was removed (or moved away)")
+        ctx.oblige("the-removed-data-is-scrubbed-from-the-objects-property-groups", any(x is e["child"] for x in scrubbed),
+                   note="a property group of this object keeps listing a data that is no longer its child")
+
+
+CONTRACTS = CONTRACTS + [ObjectRemoveChildren]
